@@ -47,7 +47,7 @@ def run(tier, seed):
     X.mc_stage(ctx, ["sage_a", "pfi_a"] if quick else ["sage_a", "pfi_a", "sage_b", "sage_c", "sage_d", "pfi_b", "pfi_d"],
                "FaultAtomic + Efficiency in every state reachable after faults at any callback step",
                negatives=[("sage_neg", "FaultAtomic"), ("pfi_neg", "FaultAtomic")])
-    X.replay_stage(ctx, ["sage_fq", "pfi_fq"] if quick else ["sage_fq", "pfi_fq", "sage_fa", "pfi_fa", "sage_fprod", "sage_ff"],
+    X.replay_stage(ctx, ["sage_fq", "pfi_fq"] if quick else ["sage_fq", "pfi_fq", "sage_fa", "pfi_fa", "sage_fprod", "sage_ff", "sage_fdef"],
                    wanted_replay, limit=2500 if quick else 12000, rng=rng)
     scs = fault_scenarios(rng, 8 if quick else 60, quick, pairs=not quick)
     traces, kept, fails = E.validate(ctx, scs, wanted_trace, "single%s injected faults at enumerated (call, callback) positions; "
